@@ -62,3 +62,19 @@ func isIfaceOrReader(prm *ssa.Parameter) bool {
 	_, ok := prm.Type().Underlying().(interface{ NumMethods() int })
 	return ok
 }
+
+func debugWorkers(p *Program, spec string) {
+	i := strings.LastIndex(spec, ":")
+	fn := p.Func(spec[:i], spec[i+1:])
+	sites, _, err := analyseWorkers(p, fn)
+	fmt.Println("err:", err, "sites:", len(sites))
+	for _, s := range sites {
+		fmt.Println("=== site", s.Pos, "closure", shortFn(s.Closure), "err:", s.Err)
+		for _, c := range s.Conds {
+			fmt.Println("   cond", trunc(c.Key(), 200))
+		}
+		for _, ev := range s.Events {
+			fmt.Printf("   %s %s recv=%s args=%s res=%s\n", ev.Kind, ev.Fn, trunc(valKey(ev.Recv), 150), trunc(valKey(Tuple(ev.Args)), 600), trunc(valKey(ev.Res), 100))
+		}
+	}
+}
